@@ -28,7 +28,14 @@ fn custom_key(rng: &mut Rng) -> String {
 }
 
 fn random_claim(rng: &mut Rng, existing: &[String]) -> Claim {
-    let ts = |rng: &mut Rng| crate::c11::render(946_684_800 + rng.below(2_000_000_000) as i64, (rng.next() % 1_000_000_000) as u32, rng.below(2879) as i32 - 1439, rng.below(10), crate::c11::Style::Strict);
+    // RFC 3339 renderings in every strict spelling: numeric offsets, "+00:00", "Z", "-00:00", fractions with trailing zeros
+    // (a constructor that re-formats what it parsed would turn +00:00 into Z and .500 into .5)
+    let ts = |rng: &mut Rng| {
+        let style = [crate::c11::Style::Strict, crate::c11::Style::Strict, crate::c11::Style::StrictZ, crate::c11::Style::MinusZero][rng.below(4)];
+        let off = if matches!(style, crate::c11::Style::Strict) && rng.chance(2, 3) { rng.below(2879) as i32 - 1439 } else { 0 };
+        let nanos = if rng.chance(1, 3) { (rng.below(1000) as u32) * 1_000_000 } else { (rng.next() % 1_000_000_000) as u32 };
+        crate::c11::render(946_684_800 + rng.below(2_000_000_000) as i64, nanos, off, rng.below(10), style)
+    };
     match rng.below(14) {
         0 => Claim::Iss(rng.utf8_upto(20)),
         1 => Claim::Sub(rng.utf8_upto(20)),
@@ -612,7 +619,7 @@ fn c15_eval(c: &C15Case, r: &mut Report) {
 /// mutate a JSON value into something unequal of the given kind
 fn perturb(v: &Value, rng: &mut Rng) -> (Value, &'static str) {
     match v {
-        Value::String(s) => match rng.below(9) {
+        Value::String(s) => match rng.below(10) {
             0 => (json!(s.to_uppercase() + if s.to_uppercase() == *s { "x" } else { "" }), "case"),
             1 => (json!(format!("{} ", s)), "trailing-space"),
             2 => (json!(s.len()), "type"),
@@ -622,6 +629,7 @@ fn perturb(v: &Value, rng: &mut Rng) -> (Value, &'static str) {
             5 => (json!(format!("{}{}", s, "a".repeat(512))), "extended-by-512-bytes"),
             6 => (json!(format!("{}{}", s, "a".repeat(65536))), "extended-by-65536-bytes"),
             7 if s.len() > 256 && s.is_char_boundary(s.len() - 256) => (json!(s[..s.len() - 256].to_string()), "shortened-by-256-bytes"),
+            8 if !s.is_empty() => (json!(""), "emptied"),
             _ => (json!(format!("{}x", s)), "one-byte-longer"),
         },
         Value::Number(n) => {
@@ -692,6 +700,7 @@ fn c15_token_claims(rng: &mut Rng, allow_time: bool) -> Vec<ClaimOp> {
             6 => Claim::Custom(format!("b{}", i), json!(rng.chance(1, 2))),
             7 => Claim::Custom(format!("o{}", i), gens::json_tree(rng, 2)),
             _ if rng.chance(1, 5) => Claim::Custom(format!("s{}", i), json!(format!("{}{}", rng.utf8_1upto(8), "a".repeat(256 + 256 * rng.below(2))))),
+            _ if rng.chance(1, 8) => Claim::Custom(format!("s{}", i), json!("")),
             _ => Claim::Custom(format!("s{}", i), json!(rng.utf8_1upto(8))),
         };
         if seen.insert(c.key().to_string()) {
@@ -825,6 +834,34 @@ pub fn run_c15(tier: &str, seed: u64) -> Report {
         }
     });
     total.merge(r);
+
+    // ---- payloads written by ANOTHER implementation (sealed at the core layer): the same numbers spelled differently must
+    // still match, and objects that merely look like serde_json's internal number / raw-value encodings are objects
+    let mut rf = Report::new();
+    let foreign: Vec<(&str, Vec<ClaimOp>, Vec<Claim>, bool)> = vec![
+        ("{\"f\":2.5e3,\"n\":1}", vec![ClaimOp::Set(Claim::Custom("f".into(), json!(2500.0))), ClaimOp::Set(Claim::Custom("n".into(), json!(1)))], vec![Claim::Custom("f".into(), json!(2500.0))], true),
+        ("{\"f\":1.50}", vec![ClaimOp::Set(Claim::Custom("f".into(), json!(1.5)))], vec![Claim::Custom("f".into(), json!(1.5))], true),
+        ("{\"f\":1E2}", vec![ClaimOp::Set(Claim::Custom("f".into(), json!(100.0)))], vec![Claim::Custom("f".into(), json!(100.0))], true),
+        ("{\"f\":0.10,\"s\":\"\\u0061\"}", vec![ClaimOp::Set(Claim::Custom("f".into(), json!(0.1))), ClaimOp::Set(Claim::Custom("s".into(), json!("a")))], vec![Claim::Custom("f".into(), json!(0.1)), Claim::Custom("s".into(), json!("a"))], true),
+        ("{\"seats\":{\"$serde_json::private::Number\":\"4\"}}", vec![ClaimOp::Set(Claim::Custom("seats".into(), json!({"$serde_json::private::Number": "4"})))], vec![Claim::Custom("seats".into(), json!(4))], false),
+        ("{\"seats\":{\"$serde_json::private::RawValue\":\"4\"}}", vec![ClaimOp::Set(Claim::Custom("seats".into(), json!({"$serde_json::private::RawValue": "4"})))], vec![Claim::Custom("seats".into(), json!(4))], false),
+        ("{\"aud\":{\"$serde_json::private::RawValue\":\"\\\"customers\\\"\"}}", vec![ClaimOp::Set(Claim::Custom("aud".into(), json!({"$serde_json::private::RawValue": "\"customers\""})))], vec![Claim::Aud("customers".into())], false),
+    ];
+    for &p in &[P::V4L, P::V2L, P::V4P, P::V3L] {
+        let key = pools.key(p, 0);
+        for (layer, dp) in [(Layer::Generic, false), (Layer::Batteries, false), (Layer::Batteries, true)] {
+            for (text, model, e, _accept) in &foreign {
+                let c = C15Case { p, key: key.clone(), s: model.clone(), e: e.clone(), layer, default_parser: dp, class: "foreign-payload-spelling".into(), raw_payload: Some(text.to_string()), validators: vec![], validators_first: false };
+                let before = rf.violations_total;
+                c15_eval(&c, &mut rf);
+                if rf.violations_total == before {
+                    rf.count("foreign payload spellings judged by JSON value");
+                }
+            }
+        }
+    }
+    rf.require("foreign payload spellings judged by JSON value", 60);
+    total.merge(rf);
 
     // ---- authentic tokens whose payload is JSON but NOT an object (core builder / another implementation): every expected
     // claim is absent from them, so every expectation must fail as missing
@@ -1020,7 +1057,7 @@ pub fn replay_c15(case: &Value) -> Report {
     r
 }
 
-pub const RULE_C15: &str = "for seeded random token claim sets S (registered string claims, integers, booleans, nested JSON, strings) the expected sets E = {equal, random subset, superset with one absent claim, one value changed (case / trailing space / NUL suffix / one byte longer / extended or shortened by exactly 256, 512, 65536 bytes / type / off-by-one / a float changed only beyond single precision / fraction / negation / extra element; time claims: another instant and the same instant or second spelled differently), one key changed by one character, expected value on a claim that is present as null, integer-vs-float spelling (don't-care)} are registered with check_claim (and, on GenericParser, also through one extend_check_claims call) on GenericParser, PasetoParser::new() and PasetoParser::default() and the authentic token is parsed; oracle = harness-side comparison of S and E: accept iff no discrepancy; a missing-only discrepancy must be reported as Missing(k) for a missing k; an error must name a failing claim. Plus 500 (thorough 5000) histories: one parser processes 8 tokens in 4 orders and every outcome must equal the fresh-parser outcome. Plus sessions in which the expectation for a key is REPLACED on a live parser between parses (check_claim again with another value), and 160 (thorough 2000) NESTED pairs of such sessions (a second parser with other expectations is created, used and dropped in the middle of the first one's life on the same thread). Plus PasetoParser::default().check_claim(exp|nbf) as its own class. Plus an expectation on a key that also has a tolerant validator (a harness one, or the default parser's own exp/nbf validators) against a token that lacks the claim: still refused as missing. Plus authentic tokens whose payload is valid JSON but not an object (sealed at the core layer: [], \"aud\", 137, true, null, ...): every expectation must fail. Token claim keys include path/pointer look-alikes ('a/b' next to a nested a.b, 'https://example.com/role', '~0', 'a[0]'). distinct_nontrivial = distinct (protocol, parser kind, outcome, expectation class, error variant)";
+pub const RULE_C15: &str = "for seeded random token claim sets S (registered string claims, integers, booleans, nested JSON, strings) the expected sets E = {equal, random subset, superset with one absent claim, one value changed (case / trailing space / NUL suffix / one byte longer / extended or shortened by exactly 256, 512, 65536 bytes / type / off-by-one / a float changed only beyond single precision / fraction / negation / extra element; time claims: another instant and the same instant or second spelled differently), one key changed by one character, expected value on a claim that is present as null, integer-vs-float spelling (don't-care)} are registered with check_claim (and, on GenericParser, also through one extend_check_claims call) on GenericParser, PasetoParser::new() and PasetoParser::default() and the authentic token is parsed; oracle = harness-side comparison of S and E: accept iff no discrepancy; a missing-only discrepancy must be reported as Missing(k) for a missing k; an error must name a failing claim. Plus 500 (thorough 5000) histories: one parser processes 8 tokens in 4 orders and every outcome must equal the fresh-parser outcome. Plus sessions in which the expectation for a key is REPLACED on a live parser between parses (check_claim again with another value), and 160 (thorough 2000) NESTED pairs of such sessions (a second parser with other expectations is created, used and dropped in the middle of the first one's life on the same thread). Plus PasetoParser::default().check_claim(exp|nbf) as its own class. Plus payloads as another implementation writes them (2.5e3 / 1.50 / 1E2 / \\u0061 spellings must match the JSON-equal expectation; objects that merely look like serde_json's private number / raw-value encodings are objects and do not match a number or string). Plus an expectation on a key that also has a tolerant validator (a harness one, or the default parser's own exp/nbf validators) against a token that lacks the claim: still refused as missing. Plus authentic tokens whose payload is valid JSON but not an object (sealed at the core layer: [], \"aud\", 137, true, null, ...): every expectation must fail. Token claim keys include path/pointer look-alikes ('a/b' next to a nested a.b, 'https://example.com/role', '~0', 'a[0]'). distinct_nontrivial = distinct (protocol, parser kind, outcome, expectation class, error variant)";
 
 // ==========================================================================================
 // C16
